@@ -481,6 +481,9 @@ def _serial_clauses():
         ("result-stored-before-continuing", "the previous field's value is stored under its response key before the next field is started", store_before_next),
         ("chain-always-continues", "whenever a top-level field's value becomes available (null after a resolver error included) it is stored and the chain continues with the remaining fields",
          lambda p: None if "cb:then" not in p.events or p.outcome != "return" else ("store" in p.events and "rec:_next" in p.events)),
+        ("unexpected-failures-surface", "an exception raised while a field is resolved (anything but the empty-list signal of the field queue) leaves the call as an exception: "
+                                        "the chain never ends quietly with the fields collected so far",
+         lambda p: None if not [t for t in p.trail if t.endswith("-raises") and "pop" not in t] else p.outcome == "raise"),
     ]
 
 
@@ -1301,7 +1304,8 @@ TRACE_CONTRACTS = [
                            extra_nothrow=[r"^GraphQLResult$", r"unwrap_value$"], callbacks=[(r"runtime\.map_value$", map_value_contract)]),
          clauses=_strategy_clauses(),
          assumes=["Runtime.map_value effect contract", "hooks, ensure_wrapped, unwrap_value and GraphQLResult() do not raise"]),
-    dict(id="Executor.execute_fields_serially", target="py_gql.execution.executor:Executor.execute_fields_serially", props=["C09"],
+    dict(id="Executor.execute_fields_serially", target="py_gql.execution.executor:Executor.execute_fields_serially", props=["C09", "C08", "C04"],
+         default_props=["C09"], clause_props={"unexpected-failures-surface": ["C09", "C08", "C04"]},
          config=Config(events=[(r"self\.resolve_field$", "resolve"), (r"args\.pop$", _pop_label)], stmt_events=[(r"^resolved_fields\[", "store")],
                        raises=[(r"args\.pop$", [IndexError])], callbacks=[(r"runtime\.map_value$", map_value_contract)]),
          clauses=_serial_clauses(),
